@@ -77,3 +77,51 @@ def run(repo, run, tier):
     # not to the unknowns of the Newton system (whose explicit-sweep guess grows like |z|^s on stiff problems and makes any residual acceptable)
     from .c02 import stage_tolerance
     stage_tolerance(repo, run, rule_id="C11.6")
+    solved_not_predicted(repo, run)
+
+
+# ------------------------------------------------------------------------------------------------
+def solved_not_predicted(repo, run):
+    """'an accepted step of any implicit method never increases |y|': the stage values of an accepted step are what the nonlinear solver produced from the stage
+    equations.  The initial guess the integrator hands over is the EXPLICIT sweep through the table; a front end that hands that guess back as 'converged' whenever
+    its residual is below the (absolute) tolerance accepts explicit steps as soon as |y| is small against atol -- and an explicit sweep grows like |z|^s."""
+    import ast as _ast
+    from ..front import walk_no_nested, src, fname
+    OPT = "desolver/utilities/optimizer.py"
+    rid = run.rule("C11.7", "nonlinear_roots never hands its initial guess back as the root with a success flag that can be true: every success return carries a point "
+                            "produced by a solver (MINPACK result, dogleg / trust-region iterate)", floor=1)
+    fn = repo.get(OPT, "nonlinear_roots")
+    run.analysed_fn(OPT, fn)
+    p0 = [a.arg for a in fn.args.args][1]
+    # names that are the guess itself: the parameter and locals bound ONLY to shape/dtype conversions of it
+    same = {p0}
+    changed = True
+    while changed:
+        changed = False
+        for st in walk_no_nested(fn):
+            if isinstance(st, _ast.Assign) and len(st.targets) == 1 and isinstance(st.targets[0], _ast.Name) and st.targets[0].id not in same:
+                v = st.value
+                while isinstance(v, _ast.Call) and (fname(v) or "").split(".")[-1] in ("reshape", "asarray", "copy", "clone", "astype", "ravel", "array") and v.args:
+                    v = v.args[0]
+                nm = st.targets[0].id
+                defs = [d for d in walk_no_nested(fn) if isinstance(d, (_ast.Assign, _ast.AugAssign)) and any(
+                    isinstance(x, _ast.Name) and x.id == nm and isinstance(x.ctx, _ast.Store) for x in _ast.walk(d))]
+                if isinstance(v, _ast.Name) and v.id in same and len(defs) == 1:
+                    same.add(nm)
+                    changed = True
+    rets = [r for r in walk_no_nested(fn) if isinstance(r, _ast.Return) and isinstance(r.value, _ast.Tuple) and len(r.value.elts) == 2 and isinstance(r.value.elts[1], _ast.Tuple)]
+    if not rets:
+        raise AnalysisError("nonlinear_roots: no `return x, (success, ...)` found")
+    for r in rets:
+        root, flag = r.value.elts[0], r.value.elts[1].elts[0]
+        v = root
+        while isinstance(v, _ast.Call) and (fname(v) or "").split(".")[-1] in ("reshape", "asarray", "copy", "clone", "astype") and v.args:
+            v = v.args[0]
+        is_guess = isinstance(v, _ast.Name) and v.id in same
+        can_succeed = not (isinstance(flag, _ast.Constant) and flag.value is False)
+        ok = not (is_guess and can_succeed)
+        run.judged(rid, "return of `%s` with flag `%s`" % (src(root)[:40], src(flag)[:40]), ok=ok)
+        if not ok:
+            run.report("C11.7", OPT, r, "nonlinear_roots returns its initial guess `%s` with the success flag `%s`: the implicit integrators pass the explicit sweep through the table as the "
+                       "guess, so whenever its residual is below the absolute tolerance (|y| small against atol) the 'implicit' step that is accepted is an explicit one, which is not "
+                       "bounded by the stability function on the left half-plane" % (src(root)[:30], src(flag)[:30]))
